@@ -179,6 +179,11 @@ func c05(r *core.Run) {
 			r.Check((h != nil && producers[f][h]) || fromParam, "C05.HASHAGREE", core.FuncName(fn)+"#lookup-prefix("+g+")", in.Pos(), "index is probed with the "+f+" computed by the indexing hash function", "the "+g+" index is probed with "+core.Canon(harg)+", not with the hash function used when indexing")
 			wf := writerFormat[g]
 			r.Check(wf != "" && strings.HasPrefix(wf, format), "C05.KEYAGREE", core.FuncName(fn)+"#reader-prefix("+g+")", in.Pos(), fmt.Sprintf("reader template %q is a prefix of the writer's key template %q", format, wf), fmt.Sprintf("reader template %q is not a prefix of the writer's key template %q: indexed entries are not found", format, wf))
+			// ... cut at a component boundary: a prefix that ends in the hash itself (the separator that follows it in
+			// the writer's key left off) also matches every longer hash that merely starts with the probed one
+			if wf != "" && strings.HasPrefix(wf, format) && len(wf) > len(format) {
+				r.Check(!strings.HasSuffix(format, "%s") && !strings.HasSuffix(format, "%v"), "C05.KEYAGREE", core.FuncName(fn)+"#reader-prefix-closed("+g+")", in.Pos(), fmt.Sprintf("reader template %q ends with the separator that closes the hash component", format), fmt.Sprintf("reader template %q ends inside the key (the writer continues with %q): the probe for hash \"ab\" also covers entries of hash \"abc\", so a lookup returns a signature with another hash", format, wf[len(format):]))
+			}
 		})
 	}
 	r.Floor("C05.KEYAGREE", "hash-index prefix probes", nPref, 5)
